@@ -459,6 +459,8 @@ def _do_sweep(meta, case, res):
 
 
 def run_task(task):
+    from vlib import specgen as _sg
+    _sg.set_tier(task.get("_tier"))
     c = loader.core()
     meta = c.enum_meta.ProtocolEnumMeta
     res = TaskResult()
